@@ -249,10 +249,13 @@ def execute(run):
         shards += [{'kind': 'boxes', 'name': 'boxes-%d' % i, 'n': 1500} for i in range(8)]
         exhaustive_sizes = sizes
     else:
-        sizes = [(1, 1), (2, 1), (1, 2), (2, 2), (3, 2), (2, 3), (3, 3), (4, 2), (2, 4), (8, 1), (1, 8), (5, 2), (2, 5)]
+        sizes = [(1, 1), (2, 1), (1, 2), (2, 2), (3, 2), (2, 3), (3, 3), (4, 2), (2, 4), (8, 1), (1, 8), (5, 2), (2, 5), (4, 3), (3, 4)]
         for w, h in sizes:
-            shards += exh_shards(w, h, per=16384)
-        shards += exh_shards(4, 3, per=8192, step=1021)
+            shards += exh_shards(w, h, per=65536 if w * h >= 12 else 16384)
+        shards += exh_shards(4, 4, per=8192, step=65537)
+        shards += exh_shards(6, 2, per=65536, step=5)
+        shards += exh_shards(2, 6, per=65536, step=5)
+        shards += exh_shards(5, 3, per=8192, step=16411)
         shards += [{'kind': 'rand', 'name': 'rand-%d' % i, 'n': 12000} for i in range(32)]
         shards += [{'kind': 'boxes', 'name': 'boxes-%d' % i, 'n': 12000} for i in range(16)]
         exhaustive_sizes = sizes
